@@ -32,11 +32,12 @@ func propC04(c *Ctx) {
 			return false
 		}
 		_, ch := fieldChain(s.Args[param-1])
-		if len(ch) < len(chain) {
-			return false
+		if len(ch) >= len(chain) && chainIs(ch[len(ch)-len(chain):], chain...) {
+			return true
 		}
-		ch = ch[len(ch)-len(chain):]
-		return chainIs(ch, chain...)
+		// the value through a small carrier struct built by a helper (own := ig.owner(ctx); own.ig)
+		_, ch = deepFieldChain(s.Args[param-1])
+		return len(ch) >= len(chain) && chainIs(ch[len(ch)-len(chain):], chain...)
 	}
 
 	c.Rule("R4.1", "statements on shovel.task_updates are keyed by (src_name ← Task.srcName, ig_name ← Task.destConfig.Name); exceptions: retention prune partitioned by both, read-only views", 4)
@@ -144,8 +145,13 @@ func propC04(c *Ctx) {
 				cs, ci := s.Stmt.conj(b, "src_name"), s.Stmt.conj(b, "ig_name")
 				okS := false
 				if cs != nil && cs.Op == "=" && cs.Param > 0 && cs.Param <= len(s.Args) {
-					if call, ok := stripConv(s.Args[cs.Param-1]).(*ssa.Call); ok && calleeName(call) == modPath+"/wctx.SrcName" {
-						if p, ok := call.Call.Args[0].(*ssa.Parameter); ok && p.Parent() == impl {
+					u := unfoldV(s.Args[cs.Param-1])
+					if debugOn() {
+						fmt.Printf("DEBUG R4.2 arg=%s unfold=%s stack=%d\n", sym(s.Args[cs.Param-1]), sym(u.v), len(u.stack))
+					}
+					if call, ok := u.v.(*ssa.Call); ok && calleeName(call) == modPath+"/wctx.SrcName" {
+						a := unfold(u.with(call.Call.Args[0]))
+						if p, ok := a.v.(*ssa.Parameter); ok && a.top() && p.Parent() == impl {
 							okS = true
 						}
 					}
@@ -277,6 +283,13 @@ func propC04(c *Ctx) {
 						okName = true
 					}
 					if !okName {
+						// through a carrier value: own := ig.owner(ctx); WithIGName(ctx, own.ig)
+						root, ch := deepFieldChain(arg)
+						if chainIs(ch, fDigName) && len(fn.Params) > 0 && rootParam(root) == fn.Params[0] {
+							okName = true
+						}
+					}
+					if !okName {
 						bad = append(bad, "Insert re-stamps ig_name with something other than its own name at "+w.Pos(instrPos(ci)))
 					}
 				}
@@ -297,6 +310,20 @@ func propC04(c *Ctx) {
 				if strings.HasPrefix(n, modPath+"/wctx.") && len(call.Call.Args) == 1 && isLoadOfField(call.Call.Args[0], fLwcCtx) {
 					okStamp[strings.TrimPrefix(n, modPath+"/wctx.")] = true
 				}
+				continue
+			}
+			// the stamps carried beside the context: a field of the row context whose only store is in
+			// Insert, holding wctx.SrcName(Insert's ctx) / Insert's own integration name
+			u := unfoldV(v)
+			ins := w.Fn("dig", "Integration.Insert")
+			if call, ok := u.v.(*ssa.Call); ok && calleeName(call) == modPath+"/wctx.SrcName" && len(call.Call.Args) == 1 {
+				a := unfold(u.with(call.Call.Args[0]))
+				if p, ok := a.v.(*ssa.Parameter); ok && a.top() && p.Parent() == ins {
+					okStamp["SrcName"] = true
+				}
+			}
+			if root, ch := deepFieldChain(v); chainIs(ch, fDigName) && rootParam(root) == ins.Params[0] {
+				okStamp["IGName"] = true
 			}
 		}
 		c.Check("R4.3", "logWithCtx.get/stamps-read-own-ctx", get.Pos(), okStamp["SrcName"] && okStamp["IGName"] && okStamp["ChainID"], fmt.Sprintf("src_name/ig_name/chain_id are read from logWithCtx.ctx: %v", okStamp))
